@@ -592,6 +592,12 @@ def conc_sessions(ctx, n=None, only=None):
                     kind = "lost-clse-no-entry" if lost and not any(f[0] in ("malformed-wire", "duplicate-or-invalid-id") for f in fails) else "incomplete"
                     fails.append((kind, "worker %d (%s) raised %s on a healthy device%s" % (i, cmds[i].decode(), r[1], " after its CLSE was dropped by put() (K1)" if kind == "lost-clse-no-entry" else "")))
         for kind, why in fails:
+            if kind == "lost-clse-no-entry" and ctx.prop != "C06":
+                continue        # K1 belongs to C06 (known finding there); other properties only look at their own clauses here
+            if ctx.prop == "C02" and kind not in ("malformed-wire", "deadlock"):
+                continue
+            if ctx.prop == "C14" and kind not in ("duplicate-or-invalid-id", "deadlock"):
+                continue
             rep.prop_failures.append(dict(case=ser, why=why, signature=dict(kind=kind), no_shrink=True, replay_with="conc-sessions"))
         if len([f for f in rep.prop_failures if f["signature"]["kind"] != "lost-clse-no-entry"]) > 5:
             break
